@@ -460,7 +460,7 @@ fn model_def_matches(model: &Model, i: usize, k: &DefK) -> bool {
 
 fn ok_goto(got: &Option<DefK>, exp: &super::model::Expect, model: &Model) -> bool {
     match got {
-        None => exp.accept.is_empty(),
+        None => exp.accept.is_empty() || exp.none_ok,
         Some(g) => exp.accept.iter().any(|i| model_def_matches(model, *i, g)),
     }
 }
@@ -491,11 +491,11 @@ fn oracle_c02(out: &mut RunOut, model: &Model, raw: &Raw) {
                         out.count("probe.self_parameter_with_parent", 1);
                     }
                     let ok = match got {
-                        None => exp.accept.is_empty(),
+                        None => exp.accept.is_empty() || exp.none_ok,
                         Some(g) => exp.accept.iter().any(|i| model_def_matches(model, *i, g)),
                     };
                     // references from a self-named parameter: the declaration listed first is the parent's
-                    if ex.is_some() && exp.accept.len() == 1 {
+                    if ex.is_some() && exp.accept.len() == 1 && got.is_some() {
                         if let Some(Some(locs)) = raw.refs_at.get(&(file.clone(), t.line, col)) {
                             let parent = &model.defs[*exp.accept.iter().next().unwrap()];
                             if let Some(first) = locs.first() {
@@ -543,7 +543,7 @@ fn oracle_c02(out: &mut RunOut, model: &Model, raw: &Raw) {
             let Some(got) = raw.goto.get(&(file.clone(), t.line, t.start)) else { continue };
             let exp = model.resolve(file, &t.name, None);
             let ok = match got {
-                None => exp.accept.is_empty(),
+                None => exp.accept.is_empty() || exp.none_ok,
                 Some(g) => exp.accept.iter().any(|i| model_def_matches(model, *i, g)),
             };
             if !ok {
